@@ -1014,6 +1014,26 @@ def falsify_codecs(chk, sizes):
     chk.coverage.setdefault('falsifier', {})['codecs'] = dict(stats)
     return cex
 
+def binding_safety_probe(chk, count=400):
+    """BEFORE anything lets the real iconv write through lib/iconv.py: does the loop ever tell a (scripted, harmless) iconv
+    more bytes than it has just allocated?  If so every use of an iconv-backed codec in this process could corrupt memory."""
+    rng = chk.rng.__class__(f'probe/{chk.seed}')
+    for decode in (True, False):
+        for n, rounds in G.iconv_scripts(rng, count, decode=decode):
+            if decode:
+                data = bytes(rng.randrange(256) for _ in range(n))
+                out, s = impl_decloop(data, rounds)
+            else:
+                data = ''.join(rng.choice('ab€') for _ in range(n))
+                out, s = impl_encloop(data, rounds)
+            if s.overrun is not None:
+                return {'kind': 'told-more-than-allocated', 'key': 'loop:overrun', 'direction': 'decode' if decode else 'encode',
+                        'observed': f'allocated {s.overrun[0]} bytes, told iconv {s.overrun[1]}', 'input_len': n,
+                        'input': data.hex() if decode else hexchars(data), 'outcome': out,
+                        'replay': f"lib.iconv.{'decode' if decode else 'encode'}(<input>, encoding=X) with lib.iconv._iconv replaced by the "
+                                  f"scripted iconv {script_text(rounds)[:400]} and ctypes.create_*_buffer observed"}
+    return None
+
 def falsify_loop(chk, sizes):
     """the binding itself: never tells iconv more than it allocated; under an honest iconv returns exactly what was produced;
     error spans lie inside the input; with the real iconv agrees with an independent conversion"""
